@@ -410,14 +410,16 @@ theorem getNslength_small (n : Nat) (rest : Bits) (h1 : 1 ≤ n) (h : n ≤ 64) 
   simp only
   congr 2; omega
 
-/-- what `uper_put_nslength` writes for 64 < n < 16384: the bare length determinant (no leading `1` bit) -/
-theorem putNslength_large (n : Nat) (h1 : 64 < n) (h : n < 16384) : putNslength n = some (putLength n).1 := by
+/-- what `uper_put_nslength` writes for 64 < n < 16384: the bit `1`, then the length determinant -/
+theorem putNslength_large (n : Nat) (h1 : 64 < n) (h : n < 16384) : putNslength n = some (true :: (putLength n).1) := by
   unfold putNslength
   rw [if_neg (by omega)]
   have hc := putLength_cover n
   have he := putLength_eom n
   rw [if_pos h] at hc
   have he' : (putLength n).2.2 = false := by rw [he]; simp; omega
+  have hm : putFewBits 1 1 = some [true] := by decide
+  rw [hm]
   simp only
   rw [hc, he']
   simp
@@ -428,6 +430,8 @@ theorem putNslength_fails (n : Nat) (h : 16384 ≤ n) : putNslength n = none := 
   have hc := putLength_cover n
   have he := putLength_eom n
   rw [if_neg (by omega)] at hc
+  have hm : putFewBits 1 1 = some [true] := by decide
+  rw [hm]
   simp only
   rw [hc, he]
   by_cases h4 : n / 16384 ≤ 4
